@@ -88,16 +88,26 @@ TransViaCopy(St, c) ==
        ELSE IF c.cond = "ifm-stale" THEN Err(St, "PreconditionFailed")
        ELSE CopyObject(St, c.b, c.k, -1, c.b, c.k, "COPY", "COPY", None, EmptyMeta, None, c.class)
 
-\* GetObject: HeadObject WITHOUT version id first, then GetObject with it
+\* GetObject = HeadObject (for the metadata), then GetObject (for the body).
+\* HEAD answers carry no error document.  A 404 (bucket or key or version absent, current version a delete
+\* marker) reaches the client as types.NotFound, which s3client.go maps to ErrNoSuchBucket whatever was missing
+\* (D-C38-notfound-as-nosuchbucket); any other status - 405 for a version id that names a delete marker - is not
+\* types.NotFound and is returned as the SDK's error (D-C38-errors-not-translated).
+Http404(kind) == kind \in {"NoSuchKey", "NoSuchBucket", "DeleteMarker"}
 NotFoundCode(kind, dev) == IF "D-C38-notfound-as-nosuchbucket" \in dev THEN "NoSuchBucket" ELSE SrvCode(kind)
+HeadErr(kind, dev) ==
+  IF Http404(kind) THEN [CErr(NotFoundCode(kind, dev)) EXCEPT !.tr = TRUE]
+  ELSE [CErr(SrvCode(kind)) EXCEPT !.tr = "D-C38-errors-not-translated" \notin dev]
+\* with D-C38-get-heads-current the HEAD is issued WITHOUT the version id (current version's metadata);
+\* the repaired code heads the requested version
 GetViaClient(St, c, dev) ==
   LET cur == GetObject(St, c.b, c.k, -1).r
       req == GetObject(St, c.b, c.k, c.vid).r IN
   IF "D-C38-get-heads-current" \in dev
-  THEN IF cur.err # "" THEN [CErr(NotFoundCode(cur.err, dev)) EXCEPT !.tr = TRUE]
+  THEN IF cur.err # "" THEN HeadErr(cur.err, dev)
        ELSE IF req.err # "" THEN [CErr(SrvCode(req.err)) EXCEPT !.tr = "D-C38-errors-not-translated" \notin dev]
        ELSE [CErr("") EXCEPT !.vid = cur.vid]
-  ELSE IF req.err # "" THEN [CErr(NotFoundCode(req.err, dev)) EXCEPT !.tr = TRUE]
+  ELSE IF req.err # "" THEN HeadErr(req.err, dev)
        ELSE [CErr("") EXCEPT !.vid = req.vid]
 
 \* A rule of the S3 protocol itself (enforced by the server's copy handler, as AWS does): a CopyObject onto
